@@ -96,6 +96,7 @@ class Gen:
         self.count_choice = self.count_seq[0]
         self.fill = fill                       # "zero" | "ones" | "random" | "edge"
         self.counts = {}                       # size attribute name -> chosen count
+        self.overrides = {}                    # attribute base name -> raw integer to place in that field
         self._collect(d)
 
     def _collect(self, d):
@@ -123,6 +124,8 @@ class Gen:
             return bytes(self.rng.choice(b"abc XYZ09\xc3\xa9\xff") for _ in range(n))
         n = attsiz(t)
         c = t[0]
+        if name in self.overrides and name not in self.counts and c in "UEILX":
+            return (self.overrides[name] & ((1 << (8 * n)) - 1)).to_bytes(n, "little")
         if name in self.counts and c in "UEIL":
             mx = (1 << (8 * n)) - 1
             return min(self.counts[name], mx).to_bytes(n, "little")
